@@ -21,6 +21,29 @@ impl ScriptedSink {
     }
 }
 
+impl ScriptedSink {
+    /// a sink that also implements write_vectored: the scripted count is taken ACROSS the offered buffers (like a
+    /// socket with a small send buffer); recorded as one call whose offered buffer is their concatenation
+    pub fn vectored(script: Vec<i64>, rest: i64) -> VectoredSink {
+        VectoredSink(ScriptedSink::new(script, rest))
+    }
+}
+
+pub struct VectoredSink(pub ScriptedSink);
+
+impl Write for VectoredSink {
+    fn write(&mut self, buf: &[u8]) -> io::Result<usize> {
+        self.0.write(buf)
+    }
+    fn write_vectored(&mut self, bufs: &[io::IoSlice<'_>]) -> io::Result<usize> {
+        let all: Vec<u8> = bufs.iter().flat_map(|b| b.iter().cloned()).collect();
+        self.0.write(&all)
+    }
+    fn flush(&mut self) -> io::Result<()> {
+        Ok(())
+    }
+}
+
 impl Write for ScriptedSink {
     fn write(&mut self, buf: &[u8]) -> io::Result<usize> {
         let r = if self.next < self.script.len() { self.script[self.next] } else { self.rest };
@@ -75,6 +98,20 @@ pub fn run(src: &[u8], script: Vec<i64>, rest: i64) -> Outcome {
         Err(p) => (false, Some(p)),
     };
     Outcome { canonical, sink, ok, panic }
+}
+
+/// like `run`, with a sink whose write_vectored takes the scripted count across the offered buffers
+pub fn run_vectored(src: &[u8], script: Vec<i64>, rest: i64) -> Outcome {
+    let mut canonical = Vec::new();
+    let _ = ProguardCache::write(&ProguardMapping::new(src), &mut canonical);
+    let mut sink = ScriptedSink::vectored(script, rest);
+    let r = crate::guarded(std::panic::AssertUnwindSafe(|| ProguardCache::write(&ProguardMapping::new(src), &mut sink)));
+    let (ok, panic) = match r {
+        Ok(Ok(())) => (true, None),
+        Ok(Err(_)) => (false, None),
+        Err(p) => (false, Some(p)),
+    };
+    Outcome { canonical, sink: sink.0, ok, panic }
 }
 
 pub fn offers_are_next(o: &Outcome) -> bool {
